@@ -278,23 +278,29 @@ Definition stringify (e : expr) : string :=
 (* ---- stringify_operand(node, operator): an operand pasted next to `operator` in a suggestion ---- *)
 Definition operand_precedence (operator : string) : nat :=
   if String.eqb operator "." then atom_precedence
-  else if String.eqb operator "{}" then 2
+  else if String.eqb operator "{}" then 3
   else if String.eqb operator "not" then 5
   else match binary_precedence operator with Some p => p | None => 7 end.
 
+Definition is_int_literal (e : expr) : bool := match e with EInt _ => true | _ => false end.
+
 Definition stringify_operand (e : expr) (operator : string) : string :=
-  match stringify_ (S (expr_depth e)) e with
-  | Some s => wrap e (operand_precedence operator) s
-  | None => "x"
-  end.
+  if (String.eqb operator "." && is_int_literal e)%bool then "(" ++ stringify e ++ ")"     (* `1.real` is a syntax error *)
+  else match stringify_ (S (expr_depth e)) e with
+       | Some s => wrap e (operand_precedence operator) s
+       | None => "x"
+       end.
 
 (* it is the expression's own text, in parentheses exactly when the expression binds less tightly than the
    place it is pasted into *)
 Lemma stringify_operand_wraps (e : expr) (operator s : string) :
-  stringify_ (S (expr_depth e)) e = Some s ->
+  stringify_ (S (expr_depth e)) e = Some s -> (String.eqb operator "." && is_int_literal e)%bool = false ->
   stringify e = s /\
   stringify_operand e operator = (if Nat.ltb (precedence e) (operand_precedence operator) then "(" ++ s ++ ")" else s)%string.
-Proof. intros H. unfold stringify, stringify_operand, wrap. rewrite H. split; reflexivity. Qed.
+Proof. intros H Hi. unfold stringify_operand. rewrite Hi. unfold stringify, wrap. rewrite H. split; reflexivity. Qed.
+
+Lemma int_literal_is_atom e : is_int_literal e = true -> precedence e = atom_precedence.
+Proof. destruct e; try discriminate. reflexivity. Qed.
 
 (* the object of an attribute access / method call is parenthesised unless it is an atom; a conditional,
    lambda or walrus is parenthesised next to every operator *)
@@ -302,19 +308,25 @@ Lemma operand_of_dot_is_atom_or_wrapped (e : expr) (s : string) :
   stringify_ (S (expr_depth e)) e = Some s -> precedence e < atom_precedence ->
   stringify_operand e "." = ("(" ++ s ++ ")")%string.
 Proof.
-  intros H Hp. destruct (stringify_operand_wraps e "." s H) as [_ ->].
+  intros H Hp.
+  assert (Hi : (String.eqb "." "." && is_int_literal e)%bool = false).
+  { destruct (is_int_literal e) eqn:E; [|reflexivity]. apply int_literal_is_atom in E. lia. }
+  destruct (stringify_operand_wraps e "." s H Hi) as [_ ->].
   change (operand_precedence ".") with atom_precedence. apply Nat.ltb_lt in Hp. now rewrite Hp.
 Qed.
 
 Lemma loose_operand_always_wrapped (e : expr) (operator s : string) :
-  stringify_ (S (expr_depth e)) e = Some s -> precedence e <= 2 -> operator <> "{}"%string ->
+  stringify_ (S (expr_depth e)) e = Some s -> precedence e <= 2 ->
   stringify_operand e operator = ("(" ++ s ++ ")")%string.
 Proof.
-  intros H Hp Hop. destruct (stringify_operand_wraps e operator s H) as [_ ->].
+  intros H Hp.
+  assert (Hi : (String.eqb operator "." && is_int_literal e)%bool = false).
+  { destruct (is_int_literal e) eqn:E; [|apply andb_false_r]. apply int_literal_is_atom in E. unfold atom_precedence in E. lia. }
+  destruct (stringify_operand_wraps e operator s H Hi) as [_ ->].
   assert (3 <= operand_precedence operator).
   { unfold operand_precedence, atom_precedence.
     destruct (String.eqb operator ".") eqn:E1; [lia|].
-    destruct (String.eqb_spec operator "{}") as [->|_]; [congruence|].
+    destruct (String.eqb operator "{}") eqn:E2; [lia|].
     destruct (String.eqb operator "not") eqn:E3; [lia|].
     unfold binary_precedence.
     repeat match goal with |- context [if ?c then _ else _] => destruct c end; lia. }
